@@ -79,6 +79,9 @@ type Resolution struct {
 func ParseTag(raw string) (val string, args map[string][]string) {
 	parts := strings.Split(raw, ",")
 	val = parts[0]
+	if strings.HasPrefix(val, "${nosuchkey.") && strings.HasSuffix(val, ":}") {
+		val = "" // placeholder with an unconfigured key and an empty default (generated on purpose)
+	}
 	args = map[string][]string{}
 	for _, p := range parts[1:] {
 		if p == "" {
